@@ -244,6 +244,46 @@ def window_capacity(cx):
     cx.check(n >= 4, "floor", "capacity sites were found")
 
 
+@obligation("FLOW.broadcast_targets", ["C10", "C13", "C08"], floor=2, kind="iteration shape (filter predicate / loop guard)",
+            why="heartbeat responses are what un-pauses a probing peer, frees a full window and completes ReadIndex rounds; appends are how every peer (learners included) catches up: a broadcast that skips anyone but the node itself stalls that peer for good")
+def broadcast_targets(cx):
+    from ..idioms import closure_returns
+    n = 0
+    for name, callee in (("Raft::bcast_append", "send_append"), ("Raft::bcast_heartbeat_with_ctx", "send_heartbeat")):
+        f = cx.fn(name)
+        a = cx.prog.A(f)
+        fname = fn_name(f)
+        filt = [c for c in cx.prog.all_calls if c.fn is f and c.data["callee"].endswith("::filter")]
+        okf = None
+        if filt:
+            # iterator form: prs.iter_mut().filter(|(id, _)| id != self_id).for_each(send)
+            okf = len(filt) == 1
+            for c in filt:
+                args = call_args(cx, c)
+                cl = [x for x in args if x[0] == "closure"]
+                src_ok = any(y[0] == "call" and y[1].endswith("ProgressTracker::iter_mut") for y in walk(args[0])) or any(y[0] == "field" and y[2] == "ProgressTracker.progress" for y in walk(args[0]))
+                r = closure_returns(cx.prog, cl[0][1]) if cl else None
+                okc = bool(r) and len(r) == 1 and not r[0][0] and r[0][1][0] == "bin" and r[0][1][1] == "Ne" and any(x[0] == "upvar" for x in r[0][1][2:4])
+                okf = okf and src_ok and okc
+            cx.check(okf, fname + ":targets", "%s reaches every tracked peer except the node itself (filter is exactly `id != self.id`)" % fname, filt[0])
+        else:
+            # loop form: for (id, pr) in prs.iter_mut() { if id == self_id { continue } send(..) }
+            sends = [c for c in cx.prog.all_calls if c.fn is f and c.data["callee"].endswith(callee)]
+            okf = bool(sends)
+            for c in sends:
+                extra = []
+                for l in cx.guard_lits(c):
+                    if l[0] == "in" and l[2] == frozenset(["Some"]) and l[1][0] == "call" and l[1][1].endswith("::next"):
+                        continue
+                    if l[0] == "is" and l[2] is False and l[1][0] == "bin" and l[1][1] == "Eq" and any(is_f(x, "RaftCore.id") or x[0] == "local" for x in l[1][2:4]):
+                        continue
+                    extra.append(l)
+                okf = okf and not extra
+            cx.check(okf, fname + ":targets", "%s reaches every tracked peer except the node itself (no condition besides `id != self.id`)" % fname, sends[0] if sends else None)
+        n += 1
+    cx.check(n >= 2, "floor", "both broadcasts were found")
+
+
 @obligation("FLOW.resume_sources", ["C13"], floor=3, kind="who-may-call + guard",
             why="while probing, `paused` is the only thing that keeps a second append from going out before the first is answered: only fresh evidence (an advancing ack, a non-stale rejection, a heartbeat response, a state change) may clear it")
 def resume_sources(cx):
@@ -435,6 +475,34 @@ def uncommitted(cx):
             return l[0] == "is" and l[2] is True and l[1][0] == "call" and (l[1][1] == cx.sfx("UncommittedState::maybe_increase_uncommitted_size") or cx.sfx("UncommittedState::maybe_increase_uncommitted_size") in cx.prog.reachable_fns([l[1][1]]))
         for c in app:
             require(cx, c, cx.site_key(c, "admitted"), "the leader appends proposals only after the uncommitted-size admission succeeded", admitted, kill=False)
+    # ... and whatever was charged IS appended: between a successful admission and the append there is no way out
+    # (a proposal charged and then dropped or blanked leaks budget until the next leadership change)
+    adm_names = {cx.sfx("UncommittedState::maybe_increase_uncommitted_size")}
+    sites = []
+    work = list(callers_of(cx, f))
+    while work:
+        c = work.pop()
+        try:
+            rs = cx.pg(c.fn).returns(limit=50) if len(c.fn.body.blocks) <= 12 else []
+        except OverflowError:
+            rs = []
+        if len(rs) == 1 and rs[0][1][0] == "call" and rs[0][1][1] in adm_names:
+            # a forwarding wrapper (`pub fn maybe_increase..(&mut self, e) -> bool { self.uncommitted_state.maybe_increase..(e) }`)
+            adm_names.add(strip_generics(c.fn.key))
+            work += callers_of(cx, c.fn)
+        else:
+            sites.append(c)
+    for c in sites:
+        F = c.fn
+        gF = cx.pg(F)
+        reach_append = set()
+        for sp, x in cx.prog.calls_out[F.key]:
+            if x.kind == "call" and (sp.endswith("RaftLog::append") or any(k2.endswith("RaftLog::append") or "RaftLog::<T>::append" in k2 for k2 in cx.prog.reachable_fns([sp]))):
+                reach_append.add(x.block)
+        def admitted_true(l):
+            return l[0] == "is" and l[2] is True and l[1][0] == "call" and l[1][1] in adm_names
+        okc, nc = gF.after_edge_must_pass(lambda lits: any(admitted_true(l) for l in lits), lambda b: b in reach_append)
+        cx.check(okc and nc >= 1 and bool(reach_append), cx.site_key(c, "charged-then-appended"), "every proposal charged to the uncommitted budget is appended (no exit between the admission and the append)", c)
     bl = [s for s in cx.prog.writes.get("UncommittedState.uncommitted_size", []) if "stmt" in s.data and write_value(cx, s) == ("int", 0) and any(x.fn is s.fn for x in cx.prog.writes.get(STATE, []))]
     cx.check(bool(bl), "leader-reset", "becoming leader zeroes the uncommitted size")
 
